@@ -10,6 +10,16 @@ CHECKS = {
     technique="TLA+ Ref lexer vs transcribed stripper (TLC, exhaustive strings) + TLC-generated cases replayed on real preprocess + TLC trace validation of random runs + comment splicing through the real pipeline",
     text="TLC enumerates every string up to length 6 (7 thorough; L1 to 8) over a 6-symbol alphabet with the verdict of the reference lexer of Comments.tla; every string is replayed on the real comment stripper and compared byte for byte; recorded outputs of random longer strings are validated by TLC (CommentsTrace.tla); every complete/unclosed comment shape of the scope is spliced into token gaps of real programs and the full in-process pipeline must report the same findings as for blanks / an error. Exhaustive within the bound, sampled beyond it.",
     note="Small-scope hypothesis (strings <= 7 symbols); the alphabet abstracts all letters to 'a' and all multi-byte characters to one 2-byte and one 4-byte representative; string literals are not special to the stripper (as in Circom)."),
+ "C15": dict(
+    level="model_checking", design="§5 C15",
+    technique="TLA+ path-based Ref of dominance vs transcribed algorithm (TLC, all rooted digraphs) + TLC-generated graphs replayed on the real DominatorTree + TLC trace validation of random larger graphs",
+    text="TLC enumerates every rooted digraph up to 4 nodes (5 thorough, 745k graphs) satisfying the precondition and prints Dom/idom/children/DF of the path-based reference definitions in Dominators.tla; each graph is replayed on the real DominatorTree::new through a harness node type and compared. Results recorded from the real code on random 6..12-node graphs are validated by TLC against the same definitions (DominatorsTrace.tla). L1: the transcribed algorithm equals Ref on the scope.",
+    note="Small-scope hypothesis beyond 5 nodes (random sampling only); harness graphs have mirrored predecessor/successor sets by construction."),
+ "C16": dict(
+    level="model_checking", design="§5 C16",
+    technique="TLA+ reference semantics of the 24 field operations (Field.tla) enumerated by TLC over all small prime fields and replayed on circom_algebra; TLC-checked boundary laws and Ref-established relations instantiated on the three real primes",
+    text="Exhaustive for every odd prime <= 31 (thorough: up to 61, plus 127 and 257): every operand pair of every operation with Ref's value or error, replayed on the real functions with panics captured. For BN254/BLS12-381/Goldilocks TLC cannot evaluate the arithmetic: the check runs boundary laws that TLC verified on every small prime, over-large shift counts under a time/memory cap, and algebraic relations TLC proved for Ref, on boundary and random operands (exploration level for the real primes).",
+    note="Field.tla is the authority for Circom's semantics; a defect that exists only for 254-bit operands away from the listed boundaries and not violating the relations would be missed."),
 }
 
 NOT_YET = "check not built yet (work in progress; see DESIGN.md §8 for the order)"
